@@ -26,6 +26,7 @@ type Scenario struct {
 	Faults   int            // injected store/router failures (before or after commit)
 	SendAlt  int            // non-default transport answers (refused / error)
 	Crashes  int
+	CommitFaults int // COMMITs that fail although every statement succeeded
 	Batches  bool // also try pairs of pending store submissions in one SQL transaction
 	Epilogue func(w *world.World)
 	Monitors func() []world.Monitor
@@ -54,6 +55,7 @@ type Scenario struct {
 var debugDump = os.Getenv("VERIF_DEBUG_DUMP") != ""
 
 type runState struct {
+	commitFaults int
 	next    []int
 	infl    []*world.Req
 	faults  int
@@ -69,7 +71,7 @@ func (s *runState) key() string {
 		ks = append(ks, fmt.Sprintf("%s=%d", k, v))
 	}
 	sort.Strings(ks)
-	return fmt.Sprintf("next=%v f=%d sa=%d c=%d sw=%v ck=%d", s.next, s.faults, s.sendAlt, s.crashes, ks, s.clockIx)
+	return fmt.Sprintf("next=%v f=%d sa=%d c=%d sw=%v ck=%d cf=%d", s.next, s.faults, s.sendAlt, s.crashes, ks, s.clockIx, s.commitFaults)
 }
 
 type option struct {
@@ -161,7 +163,7 @@ func (sc *Scenario) RunOnce(ch *vx.Chooser, keepLog bool) (res *ExecResult) {
 		m.OnStart(w)
 	}
 	nsetup := len(w.Reqs)
-	st := &runState{next: make([]int, len(sc.Clients)+1), infl: make([]*world.Req, len(sc.Clients)+1), faults: sc.Faults, sendAlt: sc.SendAlt, crashes: sc.Crashes, sweeps: map[string]int{}}
+	st := &runState{next: make([]int, len(sc.Clients)+1), infl: make([]*world.Req, len(sc.Clients)+1), faults: sc.Faults, sendAlt: sc.SendAlt, crashes: sc.Crashes, sweeps: map[string]int{}, commitFaults: sc.CommitFaults}
 	for k, v := range sc.Sweeps {
 		st.sweeps[k] = v
 	}
@@ -312,6 +314,14 @@ func (sc *Scenario) options(w *world.World, st *runState) []option {
 	if st.faults > 0 {
 		for i, p := range pend {
 			opts = append(opts, sc.faultOpts(w, st, i, p)...)
+		}
+	}
+	if st.commitFaults > 0 {
+		for i, p := range pend {
+			i := i
+			if p.Kind() == t_aio.Store {
+				opts = append(opts, option{"commitfail " + p.Label(), 1, func() { st.commitFaults--; w.Exec(i, world.CommitFail) }})
+			}
 		}
 	}
 	if st.sendAlt > 0 {
